@@ -29,6 +29,10 @@ type c06Input struct {
 	// Answer: the writer ends with CloseWrite instead of Close and then reads, until end-of-stream, what the
 	// peer writes (these sizes) after it saw the end of the first stream; the transport honours deadlines
 	Answer []int `json:"answer,omitempty"`
+	// PauseAt > 0: the transport delivers PauseAt bytes of the application records and holds the rest back; the reader
+	// has a read deadline armed, sees it expire in the middle of a record, clears it, the transport lets the rest through,
+	// and the reader reads on: nothing may be lost
+	PauseAt int `json:"pause_at,omitempty"`
 }
 
 func c06Mode(suite uint16) string {
@@ -67,6 +71,10 @@ func c06AddCase(out *emit.Out, scenario string, in c06Input) {
 		out.Add(emit.Case{Scenario: scenario, Input: in, Direct: direct, Coq: ""})
 		return
 	}
+	if in.PauseAt > 0 {
+		wire.Deadlines = true
+		wire.PauseAt = wire.DeliveredLen() + in.PauseAt
+	}
 	hsRecords := len(wire.SentRecords())
 	var bytes0 int
 	for _, r := range wire.SentRecords() {
@@ -78,6 +86,7 @@ func c06AddCase(out *emit.Out, scenario string, in c06Input) {
 	var got []byte
 	var readSizes []int
 	var rerr string
+	timedOut := false
 	var ansSent, ansGot []byte
 	var ansErr string
 	var wg sync.WaitGroup
@@ -120,6 +129,9 @@ func c06AddCase(out *emit.Out, scenario string, in c06Input) {
 	}()
 	go func() {
 		defer wg.Done()
+		if in.PauseAt > 0 {
+			reader.SetReadDeadline(time.Now().Add(40 * time.Millisecond))
+		}
 		for i := 0; ; i++ {
 			b := in.Bufs[i%len(in.Bufs)]
 			buf := make([]byte, b)
@@ -127,6 +139,13 @@ func c06AddCase(out *emit.Out, scenario string, in c06Input) {
 			if n > 0 {
 				readSizes = append(readSizes, n)
 				got = append(got, buf[:n]...)
+			}
+			if err != nil && in.PauseAt > 0 && !timedOut && tk.ErrClass(err) == "timeout" {
+				// the deadline expired with part of a record in hand: clear it, let the rest arrive, read on
+				timedOut = true
+				reader.SetReadDeadline(time.Time{})
+				wire.Resume()
+				continue
 			}
 			if err != nil {
 				if err != io.EOF {
@@ -220,6 +239,12 @@ func runC06(p params) error {
 		c06AddCase(out, "corpus-ramp-cap", c06Input{Suite: su, Writes: []int{200000}, Bufs: big, Dir: []string{"c2s", "s2c"}[i%2]})
 		c06AddCase(out, "corpus-ramp-cap", c06Input{Suite: su, Writes: []int{60000, 60000, 1}, Bufs: big, Seg: []int{1400}, Dir: "c2s"})
 		c06AddCase(out, "corpus-sizing-off", c06Input{Suite: su, DynOff: true, Writes: []int{16384*3 + 5, 16384, 16385}, Bufs: big, Dir: "s2c"})
+	}
+	// corpus: the reader's deadline expires in the middle of a record (header cut, body cut), then it reads on
+	for i, su := range suites {
+		for _, at := range []int{3, 5, 15, 600} {
+			c06AddCase(out, "corpus-deadline-inside-record", c06Input{Suite: su, Writes: []int{1000, 20, 700}, Bufs: []int{4096}, Dir: []string{"c2s", "s2c"}[i%2], PauseAt: at})
+		}
 	}
 	// corpus: the last bytes arrive together with the transport's EOF; request, half-close, read the answer
 	for i, su := range suites {
